@@ -68,6 +68,78 @@ def check(chk, sc, out, path):
                 return
 
 
+PARAM_SRC = """!transition_variables
+x
+!transition_shocks
+ex
+!parameters
+a, b, c, d, k, d0, m0, m1, h
+!transition_equations
+0 = k + a*x{+1} + b*x + c*x{-1} + d*ex;
+!measurement_variables
+obs
+!measurement_shocks
+w
+!measurement_equations
+obs = d0 + m0*x + m1*x{-1} + h*w;
+"""
+_PM = {}
+
+
+def param_values(out):
+    """Parameter values that make PARAM_SRC the library model described by `out` (one forward-looking equation in x, one measurement equation)."""
+    eq = out["eqs"][0]
+    co = {sh: float(fr(cf)) for (cf, j, sh) in eq["tx"]}
+    me = out["meqs"][0]
+    mo = {sh: float(fr(cf)) for (cf, j, sh) in me["tx"]}
+    return {"a": co.get(1, 0.0), "b": co.get(0, 0.0), "c": co.get(-1, 0.0), "d": float(fr(eq["te"][0][0])), "k": float(fr(eq["c"])),
+            "d0": float(fr(me["d"])), "m0": mo.get(0, 0.0), "m1": mo.get(-1, 0.0), "h": float(fr(me["tw"][0][0]))}
+
+
+def check_variants(chk, items):
+    """Variant k of ONE multi-variant parametric model must follow the spec path of the library model whose coefficients it was assigned."""
+    scs = [it[0] for it in items]
+    outs = [it[1] for it in items]
+    paths = [it[2] for it in items]
+    ids = [sc["id"] for sc in scs]
+    dev = bool(scs[0]["dev"])
+    payload = {"kind": "lre-variants", "ids": ids, "sc": _plain(scs[0])}
+    tag = "lre-variants:%s:%s" % ("+".join(ids), "dev" if dev else "lev")
+    desc = "one linear model with %d parameter variants = library models %s, deviation=%s init=%s unanticipated=%s anticipated=%s" % (
+        len(ids), ids, dev, _plain(scs[0]["init"]), sorted(scs[0]["u"]), sorted(scs[0]["a"]))
+    try:
+        key = tuple(ids)
+        if key not in _PM:
+            m = ir.Simultaneous.from_string(PARAM_SRC, linear=True)
+            m.alter_num_variants(len(ids))
+            pv = [param_values(o) for o in outs]
+            m.assign(**{n: [p[n] for p in pv] for n in pv[0]})
+            quiet(m.steady)
+            m.solve()
+            _PM[key] = m
+        m = _PM[key]
+        span_all = ir.Span(per(-1), per(TN + 3))
+        db = ir.Databox.steady(m, span_all, deviation=dev)
+        for k_ in (-1, 0):
+            db["x"][per(k_)] = [float(fr(p[k_][0])) for p in paths]
+        for k_ in range(1, TN + 1):
+            db["ex"][per(k_)] = [float(fr(o["u"][k_ - 1][0])) for o in outs]
+            db["w"][per(k_)] = [float(fr(o["w"][k_ - 1][0])) for o in outs]
+        for k_ in range(1, TN + 3):
+            db["ant_ex"][per(k_)] = [float(fr(o["a"][k_ - 1][0])) for o in outs]
+        sim = quiet(m.simulate, db, ir.Span(per(1), per(TN)), method="first_order", deviation=dev)
+    except Exception as ex:
+        chk.mismatch(tag + ":raised:" + type(ex).__name__, desc + ": raised %r" % (ex,), payload)
+        return
+    for v, (o, p) in enumerate(zip(outs, paths)):
+        for k_ in range(1, TN + 1):
+            for name, e in (("x", float(fr(p[k_][0]))), ("obs", float(fr(o["meas"][k_ - 1][0])))):
+                g = float(sim[name].get_data(per(k_))[0, v])
+                if not abs(g - e) <= 1e-9 * max(1.0, abs(e)):
+                    chk.mismatch(tag + ":path", desc + ": %s of variant %d (coefficients of %s) in period %d is %r, spec path %r" % (name, v, ids[v], k_, g, e), payload)
+                    return
+
+
 def check_roots(chk, out, ident):
     payload = {"kind": "roots", "id": ident, "src": list(out["src"])}
     try:
@@ -91,15 +163,27 @@ def run(chk):
     chk.add_tlc(r, "LinearREMC")
     n = 0
     seen_models = {}
+    groups = {}
     for st in tlaval.parse_dump(dump, want=lambda b: "fin = TRUE" in b):
         sc, out, path = st["sc"], st["out"], dict(st["path"])
         check(chk, sc, out, path)
+        if sc["id"] in ("L2", "L9"):
+            groups.setdefault((sc["dev"], repr(_plain(sc["init"])), repr(sorted(sc["u"])), repr(sorted(sc["a"]))), {})[sc["id"]] = (sc, out, path)
         seen_models.setdefault(sc["id"], out)
         n += 1
         if n in (7, 300):
             chk.sample({"scenario": _plain(sc), "source": list(out["src"]), "spec_path": {str(k): _plain(v) for k, v in sorted(path.items())},
                         "spec_measurement": _plain(out["meas"])})
     os.remove(dump)
+    nv = 0
+    for key_, g_ in sorted(groups.items()):
+        if len(g_) == 2:
+            check_variants(chk, [g_["L2"], g_["L9"]] if nv % 2 == 0 else [g_["L9"], g_["L2"]])
+            nv += 1
+    if not nv:
+        raise MachineryError("LinearREMC: no pair of scenarios for the multi-variant model")
+    chk.replayed += nv
+    chk.notes["two_variant_parametric_simulations"] = nv
     if n * (TN + 1) != r.distinct:
         raise MachineryError("LinearREMC: %d final states for %d distinct states" % (n, r.distinct))
     for ident, out in sorted(seen_models.items()):
